@@ -192,9 +192,9 @@ def run(chk):
     _check_and_cover(chk, 'C15_quick.cfg', env, spaces, pmap, stats, limit=0, cover=False)
     _check_and_cover(chk, 'C15_ooo.cfg', env, spaces, pmap, stats, limit=0, cover=False)
     _mirror(chk, env, spaces, pmap, stats)
-    _simulate(chk, 'C15_quick.cfg', env, spaces, pmap, stats, num=800, depth=16)
-    _simulate(chk, 'C15_ooo.cfg', env, spaces, pmap, stats, num=400, depth=12)
-    _simulate(chk, 'C15_sim.cfg', env, spaces, pmap, stats, num=240, depth=22)
+    _simulate(chk, 'C15_quick.cfg', env, spaces, pmap, stats, num=480, depth=16)
+    _simulate(chk, 'C15_ooo.cfg', env, spaces, pmap, stats, num=240, depth=12)
+    _simulate(chk, 'C15_sim.cfg', env, spaces, pmap, stats, num=200, depth=22)
   else:
     _check_and_cover(chk, 'C15_thorough.cfg', env, spaces, pmap, stats, limit=0, timeout=3000)
     _check_and_cover(chk, 'C15_ooo_thorough.cfg', env, spaces, pmap, stats, limit=12000, timeout=3000)
